@@ -279,7 +279,7 @@ def batch3 : List Item :=
     .warning fileB "7".toList [] "[unchecked] cast".toList 0 ["  T y = (T) o;".toList],
     .error fileC "12".toList [] "cannot find symbol".toList 0 ["  symbol: variable foo".toList],
     .error fileA "9".toList [] "missing return".toList 0 [],
-    .note "Note: Some input files use unchecked or unsafe operations.".toList,
+    .note "Note: Some input files use unchecked operations.".toList,
     .summary "3".toList ]
 
 theorem batch3_wf : ∀ i ∈ batch3, WFItem .javac i := by decide +kernel
